@@ -179,6 +179,11 @@ func (c *Ctx) load(h *Heap, l *Loc) Val {
 	v := make(Val, len(l.accs))
 	for i, a := range l.accs {
 		v[i] = c.loadAcc(h, a)
+		// references stored in the entry heap denote objects that existed at entry
+		if a.leaf.Kind == KRef && isEntryHeapTerm(v[i]) && !c.lazyDone["entryref@"+v[i]] {
+			c.lazyDone["entryref@"+v[i]] = true
+			c.asserts = append(c.asserts, lt(v[i], "|alloc@0|"))
+		}
 	}
 	return v
 }
